@@ -451,7 +451,9 @@ def gen_history(rng, length):
     sim = Sim()
     steps = []
     k = [0]
-    tainted = set()  # collections whose expression contains an `out=` Elemwise (known class: slicing them raises)
+    # formerly: collections whose expression contains an `out=` Elemwise were never sliced / flipped / rechunked (slicing them raised,
+    # fixed in repo bc2ace0): the set stays empty now, so slices, integer indices, flips and rechunks of x AFTER np.f(..., out=x) are generated
+    tainted = frozenset()
     maybe_alias = {}  # rechunk results may be the very same object as their source
 
     def taint(n):
@@ -463,7 +465,7 @@ def gen_history(rng, length):
                 if (a in group) != (b in group):
                     group |= {a, b}
                     changed = True
-        tainted.update(group)
+        return group  # (no longer recorded: see `tainted` above)
 
     def fresh():
         k[0] += 1
@@ -645,11 +647,11 @@ def gen_history(rng, length):
                 # a unary ufunc (often x itself is the input)
                 same = [n for n in names if sim.np[n].shape == shp and n not in sim.unknown and n not in sim.masked]
                 st.update(a=x if rng.random() < 0.5 else rng.choice(same), b=None, ufunc=rng.choice(["negative", "absolute", "square"]))
-            if rng.random() < 0.5 and shp:
+            if rng.random() < 0.5:
                 # where=: the chunk function receives the block of x as its `out` and must not write into it
-                # (0-d x whose block is a NumPy scalar: known class, c11_ufunc.probes (d))
+                # (also on 0-d x, whose block may be a NumPy scalar: fixed in repo ee894a6)
                 wq = rng.random()
-                if wq < 0.4:
+                if wq < 0.4 or not shp:
                     st["where"] = {"kind": "np", "mask": np.array([rng.random() < 0.5 for _ in range(int(np.prod(shp)))]).reshape(shp).tolist()}
                 elif wq < 0.7:
                     st["where"] = {"kind": "dask", "mask": np.array([rng.random() < 0.5 for _ in range(int(np.prod(shp)))]).reshape(shp).tolist(),
@@ -1086,6 +1088,12 @@ def check_history(ctx, steps, optimize, eager, shrink=True, mode=None):
         return True
     sig = classify(steps, bad)
     small = steps
+    seen = ctx.__dict__.setdefault("_c11_reported", set())
+    if shrink and sig in seen:
+        # one shrunk report per class and run is enough (shrinking is the expensive part)
+        ctx.notes["further_failing_histories." + sig] = ctx.notes.get("further_failing_histories." + sig, 0) + 1
+        return False
+    seen.add(sig)
     if shrink:
         try:
             if mode.get("scheduler") == "threads":
@@ -1222,7 +1230,7 @@ def search(ctx):
     rng = ctx.rng
     n = ctx.scale(2000, 30000)
     L = ctx.scale(8, 30)
-    budget = ctx.scale(22, 420)  # seconds of search proper
+    budget = ctx.scale(18, 420)  # seconds of search proper
     t0 = time.time()
     done = 0
     for i in range(n):
@@ -1315,8 +1323,7 @@ def run(ctx, replay=None):
         "a fancy key (list / bool / dask array) is combined with slices only (NumPy moves advanced dimensions when separated by a slice)",
         "MaskedArray values: the oracle is numpy.ma's assignment (x becomes a masked array, as dask documents), not ndarray.__setitem__ (which drops the mask)",
         "list / boolean / dask-array keys are not modelled in Lean (search only); the store theorems assume materialize/eval sound (C01/C02)",
-        "in-place ufunc scenarios: x and the operands have the same dtype (int64 or float64 holding integers); other dtypes of out= are a probed class",
-        "after an in-place ufunc with where=/out= no SLICE of x is taken (probed classes); da.f(a, b, x) with a positional out is a probed class (np.f(a, b, x) is explored)",
+        "in-place ufunc scenarios: x and the operands have the same dtype (int64 or float64 holding integers); other dtypes of out= are registered known findings (probes)",
     ]
     NEX = ctx.scale(4, 6)
     NR = ctx.scale(1200, 20000)
@@ -1345,8 +1352,12 @@ def run(ctx, replay=None):
                                       "(a seeded subsample of 2500 in quick)")
     from harness.props_ext import c11_ufunc
     probe_known(ctx)
+    t = time.time()
     c11_ufunc.search(ctx)
+    ctx.notes["seconds.ufunc_scenarios"] = round(time.time() - t, 1)
+    t = time.time()
     search(ctx)
+    ctx.notes["seconds.histories"] = round(time.time() - t, 1)
     c11_ufunc.probes(ctx)  # last: failures found by the searches are reported first
     if ctx.disagreements:
         targeted(ctx)
